@@ -181,4 +181,5 @@ def main():
 
 
 if __name__ == "__main__":
-    main()
+    import common
+    common.run(main, PID)
